@@ -242,6 +242,11 @@ pub struct ArgsSpec {
     /// With `list`: `-e`/`-E` flags in front of the subcommand, `-d`/`--ignore` behind its globs.
     #[serde(default)]
     pub split_flags: bool,
+    /// With `list`, two or more globs and at least one flag: the first glob stands in front of the
+    /// flags and the subcommand (`a/** --ignore x list b/**`); positional globs on both sides of
+    /// `list` add up.
+    #[serde(default)]
+    pub split_globs: bool,
 }
 
 impl ArgsSpec {
@@ -295,6 +300,13 @@ impl ArgsSpec {
             }
         }
         let mut out = Vec::new();
+        if self.list && self.split_globs && self.globs.len() >= 2 && !flags.is_empty() {
+            out.push(self.globs[0].clone());
+            out.extend(flags);
+            out.push("list".to_string());
+            out.extend(self.globs[1..].iter().cloned());
+            return out;
+        }
         if self.list && self.split_flags {
             // the flags are global: they may stand on either side of the subcommand, or on both
             let split = flags.iter().position(|f| f.starts_with("-d") || f.starts_with("--disable") || f.starts_with("--ignore")).unwrap_or(flags.len());
